@@ -11,6 +11,9 @@ use std::panic::{catch_unwind, AssertUnwindSafe};
 
 struct Finding { oracle: &'static str, input: String, observed: String, expected: String }
 type Out = Vec<Finding>;
+static CASES: std::sync::atomic::AtomicU64 = std::sync::atomic::AtomicU64::new(0);
+/// one generated input / one step of an operation sequence evaluated against the real crate
+#[inline] fn case() { CASES.fetch_add(1, std::sync::atomic::Ordering::Relaxed); }
 fn report(out: &mut Out, oracle: &'static str, input: String, observed: String, expected: String) {
     if out.iter().filter(|f| f.oracle == oracle).count() < 40 { out.push(Finding { oracle, input, observed, expected }); }
 }
@@ -52,7 +55,7 @@ fn vq(v: &Vector<Q>) -> Vec<Q> { (0..v.size()).map(|i| v[i]).collect() }
 
 // ---------------------------------------------------------------- C01 / C02
 fn c01(rng: &mut Rng, out: &mut Out) {
-    for it in 0..400 {
+    for it in 0..400 { case();
         let n = 1 + (it % 5);
         let mut a = rand_m(rng, n, n);
         // force pivoting situations: zero / negative leading entries
@@ -61,7 +64,7 @@ fn c01(rng: &mut Rng, out: &mut Out) {
         if det_ref(&a).is_zero() { continue; }
         let b: Vec<Q> = (0..n).map(|_| rng.q()).collect();
         let bv = Vector::create(b.clone());
-        for (name, which) in [("solve_basic", 0), ("solve_lu", 1)] {
+        for (name, which) in [("solve_basic", 0), ("solve_lu", 1)] { case();
             let mut am = to_matrix(&a);
             let r = quiet(|| if which == 0 { am.solve_basic(&bv) } else { am.solve_lu(&bv) });
             match r {
@@ -78,7 +81,7 @@ fn c01(rng: &mut Rng, out: &mut Out) {
     }
 }
 fn c02(rng: &mut Rng, out: &mut Out) {
-    for it in 0..300 {
+    for it in 0..300 { case();
         let n = 1 + (it % 4);
         let mut a = rand_m(rng, n, n);
         if it % 5 == 0 && n > 1 { for j in 0..n { a[n - 1][j] = a[0][j]; } }           // singular
@@ -105,7 +108,7 @@ fn c02(rng: &mut Rng, out: &mut Out) {
 // ---------------------------------------------------------------- C03
 fn c03(rng: &mut Rng, out: &mut Out) {
     // products for all shapes up to 4
-    for r in 0..4usize { for k in 0..4usize { for c in 0..4usize {
+    for r in 0..4usize { for k in 0..4usize { for c in 0..4usize { case();
         let (a, b) = (rand_m(rng, r, k), rand_m(rng, k, c));
         let (am, bm) = (Matrix::<Q>::new(r, k, Q::int(0)), Matrix::<Q>::new(k, c, Q::int(0)));
         let (mut am, mut bm) = (am, bm);
@@ -119,13 +122,13 @@ fn c03(rng: &mut Rng, out: &mut Out) {
     } } }
     // editing sequences against the model; the same edits are applied to an f64 twin (integer-valued data are exact in f64)
     // so that norms and equality are taken on the EDITED matrices, not on freshly built ones
-    for _it in 0..300 {
+    for _it in 0..300 { case();
         let (r, c) = (1 + rng.below(4) as usize, 1 + rng.below(4) as usize);
         let mut model: M = (0..r).map(|_| (0..c).map(|_| Q::int(rng.int(-9, 9))).collect()).collect();
         let mut m = to_matrix(&model);
         let mut mf = { let mut t = Mat64::new(r, c, 0.0); for i in 0..r { for j in 0..c { t[(i, j)] = model[i][j].to_f64(); } } t };
         let mut hist = vec![format!("start {}", mq(&model))];
-        for _ in 0..4 {
+        for _ in 0..4 { case();
             let (rr, cc) = (model.len(), if model.is_empty() { 0 } else { model[0].len() });
             if rr == 0 || cc == 0 { break; }
             match rng.below(9) {
@@ -166,10 +169,10 @@ fn c03(rng: &mut Rng, out: &mut Out) {
 
 // ---------------------------------------------------------------- C04 banded, C05 tridiagonal
 fn c04(rng: &mut Rng, out: &mut Out) {
-    for n in 1..7usize { for m1 in 0..n { for m2 in 0..n { for rep in 0..6 {
+    for n in 1..7usize { for m1 in 0..n { for m2 in 0..n { for rep in 0..6 { case();
         let mut b = Banded::<Q>::new(n, m1, m2, Q::int(7));          // 7 = padding value that must never matter
         let mut d: M = vec![vec![Q::int(0); n]; n];
-        for i in 0..n { for j in 0..n { if j <= i + m2 && i <= j + m1 {
+        for i in 0..n { for j in 0..n { if j <= i + m2 && i <= j + m1 { case();
             let mut v = rng.q();
             if rep % 2 == 0 && i == j { v = Q::int(-(1 + rng.below(3) as i64)); }        // negative diagonals
             if rep % 3 == 0 && i == j && i + 1 < n && m1 > 0 { v = Q::int(0); }           // zero diagonal, sub-diagonal must pivot
@@ -194,7 +197,7 @@ fn c04(rng: &mut Rng, out: &mut Out) {
     } } } }
 }
 fn c05(rng: &mut Rng, out: &mut Out) {
-    for n in 1..8usize { for rep in 0..12 {
+    for n in 1..8usize { for rep in 0..12 { case();
         let sub: Vec<Q> = (0..n - 1).map(|_| if rep % 4 == 0 { Q::int(0) } else { rng.q() }).collect();
         let sup: Vec<Q> = (0..n - 1).map(|_| rng.q()).collect();
         let main: Vec<Q> = (0..n).map(|_| if rep % 5 == 0 { Q::int(0) } else { rng.q() }).collect();
@@ -247,7 +250,7 @@ fn sparse_views_agree(s: &Sparse<Q>, d: &M, ctx: &str, out: &mut Out) {
     if let Ok(tr) = quiet(|| s.to_triplets()) { let dd = dense_of(&tr, r, c); if dd != *d || tr.len() != s.nonzero { report(out, "C06 to_triplets agrees with the reference matrix", ctx.to_string(), format!("{:?}", tr.iter().map(|t| (t.0, t.1)).collect::<Vec<_>>()), mq(d)); } }
 }
 fn c06(rng: &mut Rng, out: &mut Out) {
-    for _it in 0..250 {
+    for _it in 0..250 { case();
         let (r, c) = (1 + rng.below(5) as usize, 1 + rng.below(5) as usize);
         let mut t = rand_pattern(rng, r, c);
         let mut d = dense_of(&t, r, c);
@@ -256,7 +259,7 @@ fn c06(rng: &mut Rng, out: &mut Out) {
         let mut s = match s { Ok(s) => s, Err(e) => { report(out, "C06 from_triplets panicked", ctx0, e, "a matrix".into()); continue; } };
         sparse_views_agree(&s, &d, &ctx0, out);
         let mut ctx = ctx0.clone();
-        for _ in 0..3 {
+        for _ in 0..3 { case();
             match rng.below(3) {
                 0 => { let (i, j, v) = (rng.below(r as u64) as usize, rng.below(c as u64) as usize, rng.q_nz());
                        if quiet(|| s.insert(i, j, v)).is_err() { report(out, "C06 insert panicked", format!("{}; insert({},{})", ctx, i, j), "panic".into(), "ok".into()); return; }
@@ -271,7 +274,7 @@ fn c06(rng: &mut Rng, out: &mut Out) {
     }
 }
 fn c07(rng: &mut Rng, out: &mut Out) {
-    for _ in 0..300 {
+    for _ in 0..300 { case();
         let (r, c) = (1 + rng.below(6) as usize, 1 + rng.below(6) as usize);
         let mut t = rand_pattern(rng, r, c);
         if rng.below(3) == 0 { let ec = rng.below(c as u64) as usize; t.retain(|x| x.1 != ec); }      // an empty column
@@ -305,7 +308,7 @@ fn solvers(s: &Sparse<f64>, b: &Vector<f64>, x0: &Vector<f64>, maxit: usize, tol
     v
 }
 fn c08(rng: &mut Rng, out: &mut Out) {
-    for it in 0..200 {
+    for it in 0..200 { case();
         let n = 1 + rng.below(8) as usize;
         let mut d = vec![vec![0.0f64; n]; n];
         let kind = it % 4;
@@ -320,7 +323,7 @@ fn c08(rng: &mut Rng, out: &mut Out) {
         let tol = [1e-10, 1e-6, 1e-3][it % 3]; let maxit = [0usize, 1, 3, 60][it % 4];
         let ctx = format!("A={:?} b={:?} x0={:?} tol={} max_iter={}", d, b, x0, tol, maxit);
         let res = match quiet(|| solvers(&s, &bv, &xv, maxit, tol)) { Ok(r) => r, Err(e) => { report(out, "C08 solver panicked on conforming input", ctx, e, "Ok or Err".into()); continue; } };
-        for (name, r, x) in res {
+        for (name, r, x) in res { case();
             if maxit == 0 && (0..n).any(|i| x[i].to_bits() != x0[i].to_bits()) { report(out, "C08 zero iteration budget leaves x untouched", format!("{} solver={}", ctx, name), format!("{:?}", x), format!("{:?}", x0)); }
             if let Ok(k) = r {
                 if k > maxit { report(out, "C08 reported iterations <= max_iter", format!("{} solver={}", ctx, name), format!("Ok({})", k), format!("<= {}", maxit)); }
@@ -335,7 +338,7 @@ fn c08(rng: &mut Rng, out: &mut Out) {
     }
 }
 fn c09(rng: &mut Rng, out: &mut Out) {
-    for it in 0..120 {
+    for it in 0..120 { case();
         let n = 1 + rng.below(10) as usize;
         let mut d = vec![vec![0.0f64; n]; n];
         for i in 0..n { for j in 0..n { if rng.below(3) == 0 { d[i][j] = rng.f(); } } }
@@ -349,9 +352,9 @@ fn c09(rng: &mut Rng, out: &mut Out) {
         let tol = 1e-8;
         let ctx = format!("A={:?} b={:?}", d, b);
         // exact guess and zero rhs with zero guess are accepted as solved, x stays finite
-        for (g, what) in [(xs.iter().map(|v| v * scale).collect::<Vec<f64>>(), "exact guess"), (vec![0.0; n], "zero guess")] {
+        for (g, what) in [(xs.iter().map(|v| v * scale).collect::<Vec<f64>>(), "exact guess"), (vec![0.0; n], "zero guess")] { case();
             let bb = if what == "zero guess" { Vector::create(vec![0.0; n]) } else { bv.clone() };
-            for (name, r, x) in solvers(&s, &bb, &Vector::create(g.clone()), 50, tol) {
+            for (name, r, x) in solvers(&s, &bb, &Vector::create(g.clone()), 50, tol) { case();
                 if name == "cg" && !spd { continue; }
                 let fin = (0..n).all(|i| x[i].is_finite());
                 if !fin || r.is_err() { report(out, "C09 an already-solved system is accepted and x stays finite", format!("{} {} solver={}", ctx, what, name), format!("{:?} x={:?}", r, x), "Ok, finite x".into()); }
@@ -366,7 +369,7 @@ fn c09(rng: &mut Rng, out: &mut Out) {
         (vec![vec![30.0, 2.0, 0.0, 0.0], vec![0.0, 31.0, 1.5, 0.0], vec![0.0, 0.0, 32.0, -1.5], vec![0.0, -3.0, 0.0, 33.0]], vec![0.0, -6.0, -130.25, 49.5]),
         (vec![vec![30.0, 0.0, 4.0], vec![0.0, 31.0, 0.0], vec![0.0, 0.0, 32.0]], vec![-48.0, -108.5, 96.0]),
     ];
-    for it in 0..162 {
+    for it in 0..162 { case();
         let n = 1 + fx.below(10) as usize;
         let mut d = vec![vec![0.0f64; n]; n];
         for i in 0..n { for j in 0..n { if fx.below(3) == 0 { d[i][j] = fx.f(); } } }
@@ -380,7 +383,7 @@ fn c09(rng: &mut Rng, out: &mut Out) {
         let n = d.len();
         let s = sparse_f(&d); let bv = Vector::create(b.clone());
         let ctx = format!("A={:?} b={:?}", d, b);
-        for (name, r, x) in solvers(&s, &bv, &Vector::create(vec![0.0; n]), 10 * n + 20, 1e-8) {
+        for (name, r, x) in solvers(&s, &bv, &Vector::create(vec![0.0; n]), 10 * n + 20, 1e-8) { case();
             if name == "cg" && !spd { continue; }
             let ok = r.is_ok() && resid(&d, &x, &b) <= 1e-5;
             if !ok { report(out, "C09 converges on SPD / strictly diagonally dominant systems", format!("{} solver={}", ctx, name), format!("{:?} residual={:e}", r, resid(&d, &x, &b)), "Ok within 10n+20 iterations".into()); }
@@ -393,7 +396,7 @@ fn c09(rng: &mut Rng, out: &mut Out) {
 fn peval(c: &[Cmplx], z: Cmplx) -> (f64, f64) { let mut p = Cmplx::new(0.0, 0.0); let mut s = 0.0; let az = z.abs().max(1.0); for k in (0..c.len()).rev() { p = p * z + c[k]; s = s * az + c[k].abs(); } (p.abs(), s) }
 fn c10(rng: &mut Rng, out: &mut Out) {
     let mut cases: Vec<Vec<Cmplx>> = vec![];
-    for deg in 1..8usize { for rep in 0..12 {
+    for deg in 1..8usize { for rep in 0..12 { case();
         let mut c: Vec<Cmplx> = (0..=deg).map(|_| Cmplx::new(rng.f(), if rep % 2 == 0 { 0.0 } else { rng.f() })).collect();
         if rep % 3 == 0 { c[0] = Cmplx::new(0.0, 0.0); }
         if rep % 4 == 1 && deg >= 3 { c[1] = Cmplx::new(0.0, 0.0); c[2] = Cmplx::new(0.0, 0.0); }
@@ -403,7 +406,7 @@ fn c10(rng: &mut Rng, out: &mut Out) {
     cases.push(vec![Cmplx::new(0.0, 0.0), Cmplx::new(0.0, 0.0), Cmplx::new(1.0, 0.0)]);            // x^2
     cases.push(vec![Cmplx::new(1.0, 0.0), Cmplx::new(0.0, 1.0e6), Cmplx::new(1.0, 0.0)]);          // x^2 + 1e6 i x + 1
     cases.push(vec![Cmplx::new(1.0, 0.0), Cmplx::new(0.0, 0.0), Cmplx::new(0.0, 0.0), Cmplx::new(0.0, 0.0), Cmplx::new(1.0, 0.0)]);  // x^4 + 1
-    for c in cases { for refine in [false, true] {
+    for c in cases { for refine in [false, true] { case();
         let deg = c.len() - 1;
         let ctx = format!("coeffs={:?} refine={}", c.iter().map(|z| (z.real, z.imag)).collect::<Vec<_>>(), refine);
         let p = Polynomial::<Cmplx>::new(c.clone());
@@ -425,7 +428,7 @@ fn pq(rng: &mut Rng, len: usize) -> Vec<Q> { (0..len).map(|_| rng.q()).collect()
 fn pev(c: &[Q], x: Q) -> Q { c.iter().rev().fold(Q::int(0), |s, a| s * x + *a) }
 fn coeffs_of(p: &Polynomial<Q>) -> Vec<Q> { (0..p.size()).map(|i| p[i]).collect() }
 fn c11(rng: &mut Rng, out: &mut Out) {
-    for _ in 0..300 {
+    for _ in 0..300 { case();
         let (la, lb) = (rng.below(6) as usize, rng.below(6) as usize);
         let (a, b) = (pq(rng, la), pq(rng, lb));
         let (pa, pb) = (Polynomial::new(a.clone()), Polynomial::new(b.clone()));
@@ -451,7 +454,7 @@ fn c11(rng: &mut Rng, out: &mut Out) {
     }
 }
 fn c12(rng: &mut Rng, out: &mut Out) {
-    for it in 0..400 {
+    for it in 0..400 { case();
         let (lu, lv) = (1 + rng.below(8) as usize, 1 + rng.below(5) as usize);
         let mut u = pq(rng, lu); let mut v = pq(rng, lv);
         if it % 4 == 0 { for k in 0..lu { if k % 2 == 1 { u[k] = Q::int(0); } } for k in 0..lv { if k % 2 == 1 { v[k] = Q::int(0); } } }      // sparse / even polynomials
@@ -480,7 +483,7 @@ fn c12(rng: &mut Rng, out: &mut Out) {
 // ---------------------------------------------------------------- C13 / C14 complex
 fn c13(rng: &mut Rng, out: &mut Out) {
     let cq = |rng: &mut Rng| Complex::new(if rng.below(4) == 0 { Q::int(0) } else { rng.q() }, if rng.below(4) == 0 { Q::int(0) } else { rng.q() });
-    for _ in 0..500 {
+    for _ in 0..500 { case();
         let (z, w) = (cq(rng), cq(rng)); let ctx = format!("z=({:?},{:?}) w=({:?},{:?})", z.real, z.imag, w.real, w.imag);
         let same = |a: &Complex<Q>, b: &Complex<Q>| a.real == b.real && a.imag == b.imag;
         let m = z.clone() * w.clone(); let me = Complex::new(z.real * w.real - z.imag * w.imag, z.real * w.imag + z.imag * w.real);
@@ -503,7 +506,7 @@ fn c14(_rng: &mut Rng, out: &mut Out) {
     let mut pts = vec![];
     for &re in &[-3.0, -2.0, -0.5, 0.0, 0.5, 2.0, 3.0] { for &im in &[-2.0, -0.5, 0.0, 0.5, 2.0] { if re != 0.0 || im != 0.0 { pts.push(Cmplx::new(re, im)); } } }
     let one = Cmplx::new(1.0, 0.0);
-    for &z in &pts {
+    for &z in &pts { case();
         let ctx = format!("z=({}, {})", z.real, z.imag);
         let chk = |out: &mut Out, name: &'static str, got: Cmplx, exp: Cmplx| if !cl(got, exp) { report(out, name, ctx.clone(), format!("({}, {})", got.real, got.imag), format!("({}, {})", exp.real, exp.imag)); };
         chk(out, "C14 sqrt(z)^2 == z", z.sqrt() * z.sqrt(), z);
@@ -522,7 +525,7 @@ fn c14(_rng: &mut Rng, out: &mut Out) {
         chk(out, "C14 csc*sin == 1", z.csc() * z.sin(), one);
         chk(out, "C14 sech*cosh == 1", z.sech() * z.cosh(), one);
         chk(out, "C14 polar(|z|, arg z) == z", Cmplx::polar(z.abs(), z.arg()), z);
-        for &x in &[-3.0, -2.0, -1.0, -0.5, 0.5, 1.0, 2.0, 2.5] {
+        for &x in &[-3.0, -2.0, -1.0, -0.5, 0.5, 1.0, 2.0, 2.5] { case();
             let e = (z.ln() * x).exp();
             if !cl(z.powf(x), e) { report(out, "C14 z^x == exp(x ln z)", format!("{} x={}", ctx, x), format!("({}, {})", z.powf(x).real, z.powf(x).imag), format!("({}, {})", e.real, e.imag)); }
             if !cl(z.pow(&Cmplx::new(x, 0.5)), (z.ln() * Cmplx::new(x, 0.5)).exp()) { report(out, "C14 z^w == exp(w ln z)", format!("{} w=({}, 0.5)", ctx, x), "differs".into(), "exp(w ln z)".into()); }
@@ -533,7 +536,7 @@ fn c14(_rng: &mut Rng, out: &mut Out) {
 
 // ---------------------------------------------------------------- C15 / C16 vectors
 fn c15(rng: &mut Rng, out: &mut Out) {
-    for _ in 0..300 {
+    for _ in 0..300 { case();
         let n = 1 + rng.below(8) as usize;
         let a: Vec<f64> = (0..n).map(|_| rng.f()).collect(); let b: Vec<f64> = (0..n).map(|_| rng.f()).collect();
         let (va, vb) = (Vector::create(a.clone()), Vector::create(b.clone()));
@@ -552,7 +555,7 @@ fn c15(rng: &mut Rng, out: &mut Out) {
         let got = Vector::create(iv.clone()).find(key); if got != exp { report(out, "C15 find returns the first match, else the last index", format!("v={:?} value={}", iv, key), format!("{}", got), format!("{}", exp)); }
         // edits against a list model
         let mut m = iv.clone(); let mut v = Vector::create(iv.clone()); let mut h = vec![];
-        for _ in 0..5 { match rng.below(6) {
+        for _ in 0..5 { case(); match rng.below(6) {
             0 => { let x = rng.int(0, 9); m.push(x); v.push(x); h.push(format!("push({})", x)); }
             1 => { let x = rng.int(0, 9); m.insert(0, x); v.push_front(x); h.push(format!("push_front({})", x)); }
             2 => { let p = rng.below(m.len() as u64 + 1) as usize; let x = rng.int(0, 9); m.insert(p, x); v.insert(p, x); h.push(format!("insert({},{})", p, x)); }
@@ -564,7 +567,7 @@ fn c15(rng: &mut Rng, out: &mut Out) {
     let l = Vector::<f64>::linspace(1.0, 3.0, 5); if l[0] != 1.0 || (l[4] - 3.0).abs() > 1e-12 || (0..4).any(|i| l[i] >= l[i + 1]) { report(out, "C15 linspace starts at a, ends at b, monotone", "linspace(1,3,5)".into(), format!("{:?}", l), "[1, 1.5, 2, 2.5, 3]".into()); }
 }
 fn c16(_rng: &mut Rng, out: &mut Out) {
-    for n in (0..=200usize).chain([1000, 4099]) {
+    for n in (0..=200usize).chain([1000, 4099]) { case();
         let a: Vec<f64> = (0..n).map(|i| ((i * 7 + 3) % 11) as f64 - 5.0).collect(); let b: Vec<f64> = (0..n).map(|i| ((i * 5 + 1) % 13) as f64 - 6.0).collect();
         let (va, vb) = (Vector::create(a), Vector::create(b));
         match quiet(|| (va.dot_f64(&vb), va.dot_f64(&vb))) {
@@ -579,8 +582,8 @@ fn c16(_rng: &mut Rng, out: &mut Out) {
 fn c17(_rng: &mut Rng, out: &mut Out) {
     use std::cell::Cell;
     // scalar: success means a root; bounded work; failure carries the last iterate; NaN is never success
-    for (k, (f, g0, root)) in [(&(|x: f64| x * x - 4.0) as &dyn Fn(f64) -> f64, 1.0, Some(2.0)), (&|x: f64| x * x + 1.0, 0.0, None), (&|x: f64| x.ln(), 3.0, Some(1.0)), (&|x: f64| x.sqrt() - 1.0, 0.0, Some(1.0)), (&|x: f64| x.exp() - 2.0, 0.0, Some(2.0f64.ln()))].into_iter().enumerate() {
-        for maxit in [0usize, 1, 5, 30] {
+    for (k, (f, g0, root)) in [(&(|x: f64| x * x - 4.0) as &dyn Fn(f64) -> f64, 1.0, Some(2.0)), (&|x: f64| x * x + 1.0, 0.0, None), (&|x: f64| x.ln(), 3.0, Some(1.0)), (&|x: f64| x.sqrt() - 1.0, 0.0, Some(1.0)), (&|x: f64| x.exp() - 2.0, 0.0, Some(2.0f64.ln()))].into_iter().enumerate() { case();
+        for maxit in [0usize, 1, 5, 30] { case();
             let calls = Cell::new(0usize);
             let mut nw = Newton::<f64>::new(g0); nw.iterations(maxit);
             let wrapped = |x: f64| { calls.set(calls.get() + 1); f(x) };
@@ -597,8 +600,8 @@ fn c17(_rng: &mut Rng, out: &mut Out) {
     let linj = |_x: Vec64| { let mut m = Mat64::new(3, 3, 0.0); m[(0, 0)] = 2.0; m[(0, 1)] = 1.0; m[(1, 0)] = 1.0; m[(1, 1)] = 3.0; m[(2, 2)] = 1.0; m };
     let cub = |x: Vec64| Vec64::create(vec![x[0] * x[0] * x[0] + x[1] - 1.0, x[1] * x[1] * x[1] - x[0] + 1.0]);
     let cubj = |x: Vec64| { let mut m = Mat64::new(2, 2, 0.0); m[(0, 0)] = 3.0 * x[0] * x[0]; m[(0, 1)] = 1.0; m[(1, 0)] = -1.0; m[(1, 1)] = 3.0 * x[1] * x[1]; m };
-    for limit in 0..12usize {
-        for (name, guess, f, j) in [("linear 3x3", vec![0.0, 0.0, 0.0], &lin as &dyn Fn(Vec64) -> Vec64, &linj as &dyn Fn(Vec64) -> Mat64), ("cubic 2x2", vec![0.9, 0.1], &cub, &cubj)] {
+    for limit in 0..12usize { case();
+        for (name, guess, f, j) in [("linear 3x3", vec![0.0, 0.0, 0.0], &lin as &dyn Fn(Vec64) -> Vec64, &linj as &dyn Fn(Vec64) -> Mat64), ("cubic 2x2", vec![0.9, 0.1], &cub, &cubj)] { case();
             let seen_ok = Cell::new(false);
             let rec = |x: Vec64| { let v = f(x); if v.norm_inf() <= 1e-8 { seen_ok.set(true); } v };
             let mut nw = Newton::<Vec64>::new(Vec64::create(guess.clone())); nw.iterations(limit);
@@ -612,7 +615,7 @@ fn c17(_rng: &mut Rng, out: &mut Out) {
 }
 fn c18(rng: &mut Rng, out: &mut Out) {
     use std::cell::RefCell;
-    for m in 1..5usize { for n in 1..5usize { for _ in 0..4 {
+    for m in 1..5usize { for n in 1..5usize { for _ in 0..4 { case();
         let a: Vec<Vec<f64>> = (0..m).map(|_| (0..n).map(|_| if rng.below(4) == 0 { 0.0 } else { rng.f() }).collect()).collect();
         let c: Vec<f64> = (0..m).map(|_| rng.f()).collect(); let p: Vec<f64> = (0..n).map(|_| rng.f()).collect();
         let calls: RefCell<Vec<Vec<f64>>> = RefCell::new(vec![]);
@@ -640,7 +643,7 @@ fn c18(rng: &mut Rng, out: &mut Out) {
 
 // ---------------------------------------------------------------- C19 meshes
 fn c19(rng: &mut Rng, out: &mut Out) {
-    for _ in 0..60 {
+    for _ in 0..60 { case();
         let (nx, ny, nv) = (2 + rng.below(4) as usize, 2 + rng.below(4) as usize, 1 + rng.below(3) as usize);
         let xs: Vec<f64> = (0..nx).scan(0.0, |s, _| { *s += 0.25 * (1 + rng.below(4)) as f64; Some(*s) }).collect();
         let ys: Vec<f64> = (0..ny).scan(-1.0, |s, _| { *s += 0.5 * (1 + rng.below(3)) as f64; Some(*s) }).collect();
@@ -649,10 +652,10 @@ fn c19(rng: &mut Rng, out: &mut Out) {
         for i in 0..nx { for j in 0..ny { let v: Vec<f64> = (0..nv).map(|_| rng.int(-9, 9) as f64).collect(); model[i][j] = v.clone();
             if rng.below(2) == 0 { m2.set_nodes_vars(i, j, Vector::create(v)); } else { for k in 0..nv { m2[(i, j)][k] = v[k]; } } } }
         let ctx = format!("nx={} ny={} nvars={}", nx, ny, nv);
-        for i in 0..nx { for j in 0..ny { for k in 0..nv {
+        for i in 0..nx { for j in 0..ny { for k in 0..nv { case();
             if m2.get_nodes_vars(i, j)[k] != model[i][j][k] || m2[(i, j)][k] != model[i][j][k] { report(out, "C19 2-D mesh returns what was stored", format!("{} node ({},{}) var {}", ctx, i, j, k), format!("{}", m2.get_nodes_vars(i, j)[k]), format!("{}", model[i][j][k])); }
         } } }
-        for k in 0..nv { match quiet(|| m2.var_as_matrix(k)) {
+        for k in 0..nv { case(); match quiet(|| m2.var_as_matrix(k)) {
             Ok(mm) => { if mm.rows() != nx || mm.cols() != ny || (0..nx).any(|i| (0..ny).any(|j| mm[(i, j)] != model[i][j][k])) { report(out, "C19 var_as_matrix returns the stored variable at every node", format!("{} var {}", ctx, k), "differs".into(), "stored values".into()); } }
             Err(e) => report(out, "C19 var_as_matrix panicked", format!("{} var {}", ctx, k), e, "a matrix".into()) } }
         for i in 0..nx { let s = m2.cross_section_xnode(i); for j in 0..ny { if s.coord(j) != ys[j] || (0..nv).any(|k| s.get_nodes_vars(j)[k] != model[i][j][k]) { report(out, "C19 cross_section_xnode", format!("{} i={}", ctx, i), "differs".into(), "row of nodes".into()); } } }
@@ -697,7 +700,7 @@ fn c20(rng: &mut Rng, out: &mut Out) {
         must_panic(out, format!("Sparse({}x{}).get({}, 0)", a, a, a), quiet(|| { let _ = sp.get(a, 0); }));
     } }
     // Banded operands must agree in n, m1 AND m2 (equal total bandwidth is not enough)
-    for (p, q) in [((4usize, 1usize, 2usize), (4usize, 2usize, 1usize)), ((5, 0, 2), (5, 2, 0)), ((4, 1, 1), (4, 0, 2))] {
+    for (p, q) in [((4usize, 1usize, 2usize), (4usize, 2usize, 1usize)), ((5, 0, 2), (5, 2, 0)), ((4, 1, 1), (4, 0, 2))] { case();
         let (x, y) = (Banded::<Q>::new(p.0, p.1, p.2, Q::int(1)), Banded::<Q>::new(q.0, q.1, q.2, Q::int(2)));
         must_panic(out, format!("Banded{:?} + Banded{:?}", p, q), quiet(|| { let _ = &x + &y; }));
         must_panic(out, format!("Banded{:?} - Banded{:?}", p, q), quiet(|| { let _ = &x - &y; }));
@@ -705,7 +708,7 @@ fn c20(rng: &mut Rng, out: &mut Out) {
         must_panic(out, format!("Banded{:?} -= Banded{:?}", p, q), quiet(|| { let mut t = x.clone(); t -= &y; }));
     }
     // consuming forms return what the borrowed forms return; operands taken by reference are unchanged
-    for _ in 0..200 {
+    for _ in 0..200 { case();
         let (la, lb) = (rng.below(4) as usize, rng.below(4) as usize); let (a, b) = (pq(rng, la), pq(rng, lb));
         let (pa, pb) = (Polynomial::new(a.clone()), Polynomial::new(b.clone()));
         let ctx = format!("sizes ({}, {}) p={} q={}", la, lb, qs(&a), qs(&b));
@@ -737,5 +740,6 @@ fn main() {
     for f in &out {
         println!("{{\"property\":\"{}\",\"oracle\":\"{}\",\"input\":\"{}\",\"observed\":\"{}\",\"expected\":\"{}\",\"bounded\":true}}", pid, esc(f.oracle), esc(&f.input), esc(&f.observed), esc(&f.expected));
     }
+    println!("{{\"summary\":true,\"property\":\"{}\",\"seed\":{},\"cases\":{},\"findings\":{}}}", pid, seed, CASES.load(std::sync::atomic::Ordering::Relaxed), out.len());
     std::process::exit(if out.is_empty() { 0 } else { 1 });
 }
